@@ -11,6 +11,8 @@ import (
 	"reflect"
 
 	"github.com/akrennmair/updog"
+	"github.com/akrennmair/updog/internal/openfile"
+	"go.etcd.io/bbolt"
 	"verif/simrt"
 )
 
@@ -295,6 +297,9 @@ type C05Case struct {
 	Writers []string `json:"writers"`
 	Hist    []HistOp `json:"hist"`
 	Sample  int      `json:"sample"` // number of (column,value) membership probes
+	// Twice: ONE in-memory writer is written out twice: "file-db" (Flush, then WriteToBoltDatabase), "db-file",
+	// "db-db", or "grow" (half of the rows, write, the other half, write again): every output is complete
+	Twice string `json:"twice,omitempty"`
 }
 
 func genC05(c *Ctx) any {
@@ -346,7 +351,98 @@ func genC05(c *Ctx) any {
 	if sp.N <= 300 {
 		cs.Sample = 3000
 	}
+	if cs.Data.Spec.N <= 6000 && r.Chance(1, 4) {
+		cs.Twice = []string{"file-db", "db-file", "db-db", "grow"}[r.Intn(4)]
+	}
 	return cs
+}
+
+// writeTwice feeds ONE in-memory writer and writes it out twice; both outputs are probed.
+func writeTwice(c *Ctx, v *Verdict, mode string, rows []Row, uniq string, sample int) *Verdict {
+	p1, p2 := c.Path("twice-1.updog"), c.Path("twice-2.updog")
+	defer os.Remove(p1)
+	defer os.Remove(p2)
+	w := updog.NewIndexWriter(p1)
+	toDB := func(path string) error {
+		db, err := simrt.BoltOpened(bbolt.Open(path, 0o644, &bbolt.Options{OpenFile: openfile.OpenFile(openfile.Options{FailIfFileExists: true})}))
+		if err != nil {
+			return err
+		}
+		defer db.Close()
+		return w.WriteToBoltDatabase(db)
+	}
+	add := func(rs []Row) error {
+		for _, r := range rs {
+			if _, err := w.AddRow(r.Map()); err != nil {
+				return err
+			}
+		}
+		return nil
+	}
+	// the writer's own file name is p1: Flush always goes there
+	first, firstRows := w.Flush, rows
+	out1, out2 := p1, p2
+	second := func() error { return toDB(out2) }
+	switch mode {
+	case "file-db":
+	case "db-file":
+		out1, out2 = p2, p1
+		first, second = func() error { return toDB(out1) }, w.Flush
+	case "db-db":
+		p3 := c.Path("twice-3.updog")
+		defer os.Remove(p3)
+		out1, out2 = p2, p3
+		first, second = func() error { return toDB(out1) }, func() error { return toDB(out2) }
+	case "grow":
+		firstRows = rows[:len(rows)/2]
+	default:
+		return Invalid("unknown twice mode")
+	}
+	if err := add(firstRows); err != nil {
+		return v.Violate("write-error", "AddRow: %v", err)
+	}
+	if p := guard(func() {
+		if err := first(); err != nil {
+			v.Violate("write-error", "twice=%s: first write failed: %v", mode, err)
+		}
+	}); p != "" {
+		return v.Violate("panic", "twice=%s: first write panicked: %s", mode, p)
+	}
+	if v.Class == "violation" {
+		return v
+	}
+	if err := add(rows[len(firstRows):]); err != nil {
+		return v.Violate("write-error", "AddRow: %v", err)
+	}
+	if p := guard(func() {
+		if err := second(); err != nil {
+			v.Violate("write-error", "twice=%s: second write of the same writer failed: %v", mode, err)
+		}
+	}); p != "" {
+		return v.Violate("panic", "twice=%s: second write panicked: %s", mode, p)
+	}
+	if v.Class == "violation" {
+		return v
+	}
+	for k, out := range []struct {
+		path string
+		rows []Row
+	}{{out1, firstRows}, {out2, rows}} {
+		ref := NewRefIndex(out.rows)
+		for _, oc := range []OpenCfg{{}, {Preload: true}} {
+			idx, _, err := OpenIndex(out.path, oc, c.Seed)
+			if err != nil {
+				return v.Violate("open-error", "twice=%s: output %d of one writer does not open (%s): %v", mode, k+1, oc.Class(), err)
+			}
+			sig, d := probeIndex(idx, ref, uniq, sample, c.Seed+uint64(k))
+			idx.Close()
+			if sig != "" {
+				return v.Violate(sig, "twice=%s: output %d of one writer written twice (%s): %s", mode, k+1, oc.Class(), d)
+			}
+		}
+	}
+	v.Count("probe_one_writer_written_twice", 1)
+	return v
 }
 
 // probeIndex compares everything observable through idx with the reference.
@@ -376,6 +472,15 @@ func probeIndex(idx *updog.Index, ref *RefIndex, uniq string, sample int, seed u
 		}
 		for _, val := range col[1:] {
 			all = append(all, cv{col[0], val})
+		}
+	}
+	// every value of every column at once: one group-by per column (a lost bitmap among thousands shows)
+	for _, col := range sch {
+		if n := len(col) - 1; n >= 2 && n <= 6000 && ref.N() <= 6000 {
+			q := &Query{Expr: Not(Eq(col[0], "∅ no such value")), GroupBy: []S{S(col[0])}}
+			if d := check(q); d != "" {
+				return "wrong-membership", fmt.Sprintf("%s: %s", q, d)
+			}
 		}
 	}
 	step := 1
@@ -499,6 +604,9 @@ func runC05(c *Ctx, body json.RawMessage) *Verdict {
 			idx.Close()
 		}
 		os.Remove(path)
+	}
+	if cs.Twice != "" {
+		return writeTwice(c, v, cs.Twice, rows, uniq, cs.Sample)
 	}
 	return v
 }
